@@ -658,6 +658,14 @@ func (x *Exec) solveJob(pcs [][]*Term, goals []*Term, opts DischargeOpts) solveO
 
 // CheckSat reports whether a path condition is satisfiable (vacuity guard).
 func (x *Exec) CheckSat(pc *pcNode, timeoutSec int) Verdict {
+	// the quantifier-free rendering first (fewer assumptions): its "unsat" is conclusive, its "sat" is taken as
+	// reachable (a contradiction that needs a quantified assumption is not looked for: the guard is about
+	// contradictory path facts and contracts, and the full query is slow to answer "sat")
+	if qf := x.buildQueryOpt([][]*Term{pcTerms(pc)}, []*Term{False}, false, nil, true); !strings.Contains(qf, "(forall ") && !strings.Contains(qf, "(exists ") {
+		if r0 := RunSolver(context.Background(), Solvers[0], qf, timeoutSec); r0.Verdict != VUnknown {
+			return r0.Verdict
+		}
+	}
 	script := x.buildQuery([][]*Term{pcTerms(pc)}, []*Term{False}, false, nil)
 	r := RunSolver(context.Background(), Solvers[0], script, timeoutSec)
 	if r.Verdict == VUnknown {
@@ -669,6 +677,11 @@ func (x *Exec) CheckSat(pc *pcNode, timeoutSec int) Verdict {
 // CheckSatWith reports whether a path condition together with an extra condition is satisfiable.
 func (x *Exec) CheckSatWith(pc *pcNode, cond *Term, timeoutSec int) Verdict {
 	pcs := append(pcTerms(pc), cond)
+	if qf := x.buildQueryOpt([][]*Term{pcs}, []*Term{False}, false, nil, true); !strings.Contains(qf, "(forall ") && !strings.Contains(qf, "(exists ") {
+		if r0 := RunSolver(context.Background(), Solvers[0], qf, timeoutSec); r0.Verdict != VUnknown {
+			return r0.Verdict
+		}
+	}
 	script := x.buildQuery([][]*Term{pcs}, []*Term{False}, false, nil)
 	r := RunSolver(context.Background(), Solvers[0], script, timeoutSec)
 	if r.Verdict == VUnknown {
